@@ -68,6 +68,11 @@ def big_batch(rng, stats):
             f["status"] = True
         if rng.random() < 0.3:
             f["lost"] = True
+        if rng.random() < 0.35 and pods:
+            # the only failures of this sync are deletions of pods that vanished meanwhile (the API answers NotFound):
+            # an error like any other
+            f = {"delete_gone": pods if mode == "all" else rng.sample(pods, max(1, len(pods) // 2))}
+            wprop.bump(stats, "deletions answered NotFound (the pod vanished)", mode)
     c["ops"][0]["faults"] = f
     c["ops"] = c["ops"][:1]
     wprop.bump(stats, "batch size", n)
